@@ -711,6 +711,11 @@ def replay_data(rep: Report, res, label: str):
                 rep.distinct.add(("data", cs, x[2][0], x[2][1], tuple(f for f, _ in x[2][4]), x[3]))
             bad = replay_data_walk(case, tree, raw)
             if bad and len(rep.violations) < MAX_VIOLATIONS:
+                # shorten: calls that did not change the state can be left out of the history
+                short = [x for x in raw[: bad[0]] if x[1] != x[5]] + [raw[bad[0]]]
+                bad2 = replay_data_walk(case, tree, short)
+                if bad2 and bad2[1] == bad[1]:
+                    raw, bad = short, bad2
                 i, clause, detail = bad
                 op = raw[i][2]
                 kwf = [f for f, _ in op[4]]
